@@ -247,7 +247,8 @@ fn short_followups<const L: usize, const N: usize>(cuts: [usize; N], use_try: bo
 }
 
 /// C09 (b)(c)(d): the receiving end of T travels inside a message queued on C.
-/// sc: 0 = still in transit, 1 = C's receiver dropped with the message queued, 2 = unpacked first
+/// sc: 0 = still in transit, 1 = C's receiver dropped with the message queued, 2 = unpacked first,
+/// 3 = unpacked onto descriptor number 0 and dropped again
 fn transit<const L: usize>(sc: u8) {
     setup(64);
     env::set_block_is_violation(true);
@@ -261,14 +262,23 @@ fn transit<const L: usize>(sc: u8) {
     if sc == 1 {
         drop(c_rx.take());
     }
-    if sc == 2 {
+    if sc == 2 || sc == 3 {
+        if sc == 3 {
+            // the process has no stdin: the descriptor the receiver arrives on is number 0
+            env::next_fd_is(0);
+        }
         let (_d, mut ch, _r) = c_rx.as_ref().unwrap().recv().unwrap();
         assert!(ch.len() == 1);
         unpacked = Some(ch.pop().unwrap().to_receiver());
+        if sc == 3 {
+            assert!(ph::receiver_fd(unpacked.as_ref().unwrap()) == 0);
+            // ... and it is dropped again: now the receiver exists nowhere
+            drop(unpacked.take());
+        }
     }
     let data: [u8; L] = kani::any();
     let r = t_tx.send(&data[..], vec![], vec![]);
-    if sc == 1 {
+    if sc == 1 || sc == 3 {
         assert!(r.is_err(), "C09: send to a receiver that exists nowhere any more reported success");
     } else {
         assert!(r.is_ok(), "C09: send to a receiver that is only in transit failed");
@@ -304,6 +314,8 @@ harnesses! {
     #[unwind(6)] fn transit_carrier_dropped_multi() { transit::<57>(1) }
     #[unwind(6)] fn transit_unpacked_small() { transit::<3>(2) }
     #[unwind(6)] fn transit_unpacked_multi() { transit::<57>(2) }
+    #[unwind(6)] fn transit_unpacked_fd0_dropped_small() { transit::<3>(3) }
+    #[unwind(6)] fn transit_unpacked_fd0_dropped_multi() { transit::<57>(3) }
 
     #[unwind(6)] fn recv_att_1s() { attachments::<3, 1>(0) }
     #[unwind(6)] fn recv_att_2s_1r() { attachments::<3, 2>(1) }
